@@ -23,29 +23,31 @@ EXTENDS Integers, Sequences, FiniteSets, TLC
 
 CONSTANTS Fields,      \* e.g. {"a","b","c"}
           MaxUpdates,
+          MaxPeer,     \* writes by a peer that holds no key (0: none)
           Rule         \* "specified" | "coded"
 
 Modes == {"none", "doc"} \cup {"fields"}
 VARIABLES mode, encf,   \* creation mode and (for mode "fields") the encrypted field set
           blocks,       \* sequence of [f, tok, enc] field blocks written so far (shared block store / update events)
-          lastEnc,      \* lastEnc[f] = "nohead" | "enc" | "plain" : encryption of the current head block of field f
-          created, nupd, tok, hist
-vars == <<mode, encf, blocks, lastEnc, created, nupd, tok, hist>>
-view == <<mode, encf, blocks, lastEnc, created, nupd, tok>>
+          lastEnc,      \* lastEnc[f] = "nohead" | "enc" | "plain" | "mixed": encryption of the head block(s) of field f
+                        \* ("mixed": two heads, an encrypted one of the owner and a clear one written by a key-less peer)
+          created, nupd, npeer, tok, hist
+vars == <<mode, encf, blocks, lastEnc, created, nupd, npeer, tok, hist>>
+view == <<mode, encf, blocks, lastEnc, created, nupd, npeer, tok>>
 
 Covered(f) == mode = "doc" \/ (mode = "fields" /\ f \in encf)
 EncOnCreate(f) == Covered(f)
-EncOnUpdate(f) == IF Rule = "specified" THEN Covered(f) ELSE lastEnc[f] = "enc"
+EncOnUpdate(f) == IF Rule = "specified" THEN Covered(f) ELSE lastEnc[f] \in {"enc", "mixed"}
 
 Init == /\ mode = "none" /\ encf = {} /\ blocks = <<>> /\ lastEnc = [f \in Fields |-> "nohead"]
-        /\ created = FALSE /\ nupd = 0 /\ tok = 0 /\ hist = <<>>
+        /\ created = FALSE /\ nupd = 0 /\ npeer = 0 /\ tok = 0 /\ hist = <<>>
 
 RECURSIVE WriteAll(_, _, _, _)
 \* write the fields of sequence fs; returns [blocks, lastEnc, tok]
 WriteAll(fs, acc, isCreate, t) ==
   IF fs = <<>> THEN acc
   ELSE LET f == Head(fs)
-           e == IF isCreate THEN EncOnCreate(f) ELSE (IF Rule = "specified" THEN Covered(f) ELSE acc.lastEnc[f] = "enc")
+           e == IF isCreate THEN EncOnCreate(f) ELSE (IF Rule = "specified" THEN Covered(f) ELSE acc.lastEnc[f] \in {"enc", "mixed"})
        IN WriteAll(Tail(fs), [blocks |-> Append(acc.blocks, [f |-> f, tok |-> acc.tok + 1, enc |-> e]),
                               lastEnc |-> [acc.lastEnc EXCEPT ![f] = IF e THEN "enc" ELSE "plain"],
                               tok |-> acc.tok + 1], isCreate, t)
@@ -55,22 +57,37 @@ Update(W) ==
   /\ created /\ nupd < MaxUpdates /\ W # {}
   /\ LET r == WriteAll(SeqOf(W), [blocks |-> blocks, lastEnc |-> lastEnc, tok |-> tok], FALSE, 0) IN
      /\ blocks' = r.blocks /\ lastEnc' = r.lastEnc /\ tok' = r.tok
-  /\ nupd' = nupd + 1 /\ UNCHANGED <<mode, encf, created>>
-  /\ hist' = Append(hist, [op |-> "update", mode |-> mode, encf |-> encf, w |-> W])
+  /\ nupd' = nupd + 1 /\ UNCHANGED <<mode, encf, created, npeer>>
+  /\ hist' = Append(hist, [op |-> "update", mode |-> mode, encf |-> encf, w |-> W, conc |-> FALSE])
+
+\* A peer that received the document but holds no key writes field f itself (in clear: it has nothing to encrypt with)
+\* and the owner merges that write. conc: the owner updates f on its own head before it merges, so f has two heads,
+\* the owner's and the peer's; otherwise the peer's block is the only head. Whatever the heads look like, what the
+\* OWNER writes to a covered field afterwards must be encrypted. (The peer's own value is not a secret of the owner and
+\* is not recorded in blocks.)
+PeerWrite(f, conc) ==
+  /\ created /\ npeer < MaxPeer /\ lastEnc[f] # "nohead"
+  /\ LET own == IF conc THEN WriteAll(<<f>>, [blocks |-> blocks, lastEnc |-> lastEnc, tok |-> tok], FALSE, 0)
+                ELSE [blocks |-> blocks, lastEnc |-> lastEnc, tok |-> tok] IN
+     /\ blocks' = own.blocks /\ tok' = own.tok
+     /\ lastEnc' = [own.lastEnc EXCEPT ![f] = IF conc /\ own.lastEnc[f] = "enc" THEN "mixed" ELSE "plain"]
+  /\ npeer' = npeer + 1 /\ UNCHANGED <<mode, encf, created, nupd>>
+  /\ hist' = Append(hist, [op |-> "peerwrite", mode |-> mode, encf |-> encf, w |-> {f}, conc |-> conc])
 
 \* creation is split so that the mode is in place when the fields are written
 SetMode(m, ef) == /\ ~created /\ mode = "none" /\ blocks = <<>> /\ hist = <<>>
-                  /\ mode' = m /\ encf' = ef /\ UNCHANGED <<blocks, lastEnc, created, nupd, tok>>
-                  /\ hist' = <<[op |-> "mode", mode |-> m, encf |-> ef, w |-> {}]>>
+                  /\ mode' = m /\ encf' = ef /\ UNCHANGED <<blocks, lastEnc, created, nupd, npeer, tok>>
+                  /\ hist' = <<[op |-> "mode", mode |-> m, encf |-> ef, w |-> {}, conc |-> FALSE]>>
 CreateW(W) == /\ ~created /\ hist # <<>> /\ created' = TRUE
               /\ LET r == WriteAll(SeqOf(W), [blocks |-> blocks, lastEnc |-> lastEnc, tok |-> tok], TRUE, 0) IN
                  /\ blocks' = r.blocks /\ lastEnc' = r.lastEnc /\ tok' = r.tok
-              /\ UNCHANGED <<mode, encf, nupd>>
-              /\ hist' = Append(hist, [op |-> "create", mode |-> mode, encf |-> encf, w |-> W])
+              /\ UNCHANGED <<mode, encf, nupd, npeer>>
+              /\ hist' = Append(hist, [op |-> "create", mode |-> mode, encf |-> encf, w |-> W, conc |-> FALSE])
 Next == \/ \E m \in {"none", "doc"} : SetMode(m, {})
         \/ \E ef \in (SUBSET Fields) \ {{}} : SetMode("fields", ef)
         \/ \E W \in SUBSET Fields : CreateW(W)
         \/ \E W \in SUBSET Fields : Update(W)
+        \/ \E f \in Fields, conc \in BOOLEAN : PeerWrite(f, conc)
 Spec == Init /\ [][Next]_vars
 
 \* C11: no block of a covered field carries the plaintext
